@@ -74,6 +74,25 @@ def token_substitutions(text: str, menu=TOKEN_MENU, max_tokens=None):
                 if not tok.isdigit():
                     continue
                 new = str(int(tok) * 1000 + 7)
+            elif rep == "SCALE":  # a real number replaced by another real number of the same printed width
+                if tok.lstrip("+-").isdigit():
+                    continue
+                try:
+                    val = float(tok.replace("D", "E").replace("d", "e"))
+                except ValueError:
+                    continue
+                if val == 0.0 or val != val or abs(val) == float("inf"):
+                    continue
+                mant = tok.upper().replace("D", "E")
+                if "E" in mant:
+                    digits = len(mant.split("E")[0].split(".")[1]) if "." in mant.split("E")[0] else 0
+                    new = f"{val * 1.5:.{digits}E}"
+                    if "D" in tok.upper() and "E" not in tok.upper():
+                        new = new.replace("E", "D")
+                else:
+                    digits = len(tok.split(".")[1]) if "." in tok else 0
+                    new = f"{val * 1.5:.{digits}f}"
+                new = new.rjust(len(tok))
             elif rep == "ZERO":  # a count of zero where a positive count stands
                 if not tok.isdigit() or int(tok) == 0:
                     continue
